@@ -277,4 +277,71 @@ def memo_sites(fi):
                 used.add(n.id)
         missing = sorted(p for p in used if p not in key_names)
         out.append((_un(cache), key, r, missing))
+    # ---- an INTERMEDIATE value memoised on demand: `v = C.get(k)` / `if k not in C` ... `v = C[k] = compute(args)`. The memoised value is a function of what
+    # `compute(args)` reads; every parameter it depends on (through local definitions) must be part of the key.
+    done = {c_ for c_, _k, _r, _m in out}
+
+    def deps(e):
+        names = {n.id for n in _ast.walk(e) if isinstance(n, _ast.Name) and isinstance(n.ctx, _ast.Load)}
+        work = list(names)
+        while work:
+            nm = work.pop()
+            for k_, v_, _st, _ex in fi.defs().get(nm, []):
+                if v_ is None or not isinstance(v_, _ast.AST):
+                    continue
+                for n in _ast.walk(v_):
+                    if isinstance(n, _ast.Name) and isinstance(n.ctx, _ast.Load) and n.id not in names:
+                        names.add(n.id)
+                        work.append(n.id)
+        return names
+    for a in fi.nodes(_ast.Assign):
+        subs = [t for t in a.targets if isinstance(t, _ast.Subscript) and is_persistent(t.value)]
+        if not subs or _un(subs[0].value) in done:
+            continue
+        cache, key = subs[0].value, subs[0].slice
+        guarded = False
+        for if_, br in enclosing_ifs(fi, a):
+            for n in _ast.walk(if_.test):
+                if isinstance(n, _ast.Compare) and len(n.ops) == 1 and isinstance(n.ops[0], (_ast.In, _ast.NotIn)) and _un(n.comparators[0]) == _un(cache):
+                    guarded = True
+                if isinstance(n, _ast.Name) and any(isinstance(v_, _ast.AST) and k_ == 'assign' and (
+                        (isinstance(v_, _ast.Call) and isinstance(v_.func, _ast.Attribute) and v_.func.attr == 'get' and _un(v_.func.value) == _un(cache)) or
+                        (isinstance(v_, _ast.Subscript) and _un(v_.value) == _un(cache))) for k_, v_, _st, _ex in fi.defs().get(n.id, [])):
+                    guarded = True
+        if not guarded:
+            continue
+        val_deps = deps(a.value)
+        key_deps = deps(key)
+        missing = sorted(p_ for p_ in params if p_ in val_deps and p_ not in key_deps)
+        out.append((_un(cache), key, a, missing))
+    return out
+
+
+def dropped_accumulations(fi):
+    """Accumulators that lose what they hold: a name defined before a loop, added to inside the loop (`acc += v`, `acc[...] += v`) and, in a conditional branch of the same
+    loop, plainly re-assigned from a value that does not mention it, with no earlier statement of that branch reading it (the correct "grow the table" idiom first folds the
+    old contents into the new value: `new[:len(acc)] += acc; acc = new`). -> [(loop, assignment, name)]"""
+    import ast as _ast
+    out = []
+    for lp in [n for n in _ast.walk(fi.node) if isinstance(n, (_ast.For, _ast.While))]:
+        inside = {id(n) for n in _ast.walk(lp)}
+        aug = set()
+        for n in _ast.walk(lp):
+            if isinstance(n, _ast.AugAssign):
+                t = n.target
+                while isinstance(t, _ast.Subscript):
+                    t = t.value
+                if isinstance(t, _ast.Name):
+                    aug.add(t.id)
+        for nm in aug:
+            if not any(id(st) not in inside for k_, v_, st, ex in fi.defs().get(nm, []) if st is not None):
+                continue
+            for if_ in [n for n in _ast.walk(lp) if isinstance(n, _ast.If)]:
+                for block in (if_.body, if_.orelse):
+                    for k, st in enumerate(block):
+                        if isinstance(st, _ast.Assign) and len(st.targets) == 1 and isinstance(st.targets[0], _ast.Name) and st.targets[0].id == nm:
+                            reads_rhs = any(isinstance(n, _ast.Name) and n.id == nm for n in _ast.walk(st.value))
+                            reads_before = any(isinstance(n, _ast.Name) and n.id == nm and isinstance(n.ctx, _ast.Load) for prev in block[:k] for n in _ast.walk(prev))
+                            if not reads_rhs and not reads_before:
+                                out.append((lp, st, nm))
     return out
